@@ -1535,19 +1535,11 @@ fn display_cedarvaluejson(
                     None
                 }
             });
-            match style {
-                Some(ast::CallStyle::MethodStyle) => {
-                    #[expect(
-                        clippy::indexing_slicing,
-                        reason = "method-style calls must have more than one argument"
-                    )]
-                    display_cedarvaluejson(f, &args[0], n)?;
+            match (style, args.split_first()) {
+                (Some(ast::CallStyle::MethodStyle), Some((receiver, args))) => {
+                    display_cedarvaluejson(f, receiver, n)?;
                     write!(f, ".{ext_fn}(")?;
-                    #[expect(
-                        clippy::indexing_slicing,
-                        reason = "method-style calls must have more than one argument"
-                    )]
-                    match &args[1..] {
+                    match args {
                         [] => {}
                         [args @ .., last] => {
                             for arg in args {
@@ -1560,7 +1552,9 @@ fn display_cedarvaluejson(
                     write!(f, ")")?;
                     Ok(())
                 }
-                Some(ast::CallStyle::FunctionStyle) | None => {
+                // a method-style function without any argument has no receiver to print first
+                (Some(ast::CallStyle::MethodStyle), None)
+                | (Some(ast::CallStyle::FunctionStyle) | None, _) => {
                     write!(f, "{ext_fn}(")?;
                     match &args[..] {
                         [] => {}
